@@ -32,14 +32,17 @@ class Watchdog:
 
         self.ck, self.seconds, self.case = ck, seconds, None
         self.signal = signal
-        signal.signal(signal.SIGALRM, self._fire)
+        # the limit is on the CPU time of this process (ITIMER_PROF), not on wall time: a runaway recursion burns
+        # CPU, while a process that is merely starved on a loaded machine does not - a wall-clock limit raised a
+        # false alarm in a thorough run that shared the machine with other runs
+        signal.signal(signal.SIGPROF, self._fire)
 
     def arm(self, case, what, fp):
         self.case = (case, what, fp)
-        self.signal.setitimer(self.signal.ITIMER_REAL, self.seconds, 1.0)
+        self.signal.setitimer(self.signal.ITIMER_PROF, self.seconds, 1.0)
 
     def disarm(self):
-        self.signal.setitimer(self.signal.ITIMER_REAL, 0)
+        self.signal.setitimer(self.signal.ITIMER_PROF, 0)
         self.case = None
 
     def _fire(self, signum, frame):
@@ -50,7 +53,7 @@ class Watchdog:
             return
         case, what, fp = self.case
         sys.setrecursionlimit(100000)
-        msg = f"{what}: did not finish within {self.seconds} s"
+        msg = f"{what}: did not finish within {self.seconds} s of CPU time"
         path = self.ck._write_replay(case, msg, fp)
         os.write(1, f"VIOLATION property={self.ck.pid} replay={path}\n  {msg}\n".encode())
         os._exit(1)
